@@ -5,10 +5,13 @@
 (* curIndex, one sink call per '\n'-terminated piece, the eager prefix.      *)
 (* Every Write builds the event the harness would log and PrefixWriter!PWMon *)
 (* - the operator that judges traces of the real writer - judges it          *)
-(* (NoMismatch); LazyOk states that the rule agrees with the property-level  *)
-(* stream (PW1/PW2) whenever the sink does not fail transiently.             *)
+(* (NoMismatch).  Refinement level: AsCoded states that the byte loop is the *)
+(* piece rule PWrite, LazyOk that PWrite is the lazily prefixed stream       *)
+(* whenever the sink does not fail transiently.                              *)
 (* Design mutants (Bug): PrefixEveryWrite, EagerAtChunkEnd, CountsPrefix,    *)
-(* BapFromLen, ErrBeforePrefix, EmptyWritePrefix.                            *)
+(* EmptyWritePrefix, SwallowPartialError, CountsWholePiece violate the       *)
+(* property (NoMismatch); BapFromLen, ErrBeforePrefix only leave the coded   *)
+(* rule (AsCoded) - the property does not pin those choices.                 *)
 (***************************************************************************)
 EXTENDS Integers, Sequences, FiniteSets, TLC, Json, CSV, IOUtils, TraceLib
 CONSTANTS Chunks,      \* byte sequences a Write may carry
@@ -24,40 +27,42 @@ NL == 10
 VARIABLES prefix, sk, bap,       \* the writer and its sink
           sinkcfg,               \* <<failAt, period, sticky>> the sink was created with
           st,                    \* monitor state
-          nops, script, lazyok, mismatch
-vars == <<prefix, sk, bap, sinkcfg, st, nops, script, lazyok, mismatch>>
+          nops, script, lazyok, ascoded, mismatch
+vars == <<prefix, sk, bap, sinkcfg, st, nops, script, lazyok, ascoded, mismatch>>
 
 Init == /\ prefix \in Prefixes
         /\ \E f \in FailAts : \E m \in (IF f < 0 THEN {<<0, FALSE>>} ELSE Modes) :
               sk = PW!NewSink(f, m[1], m[2]) /\ sinkcfg = <<f, m[1], m[2]>>
-        /\ bap = 0 /\ nops = 0 /\ script = <<>> /\ lazyok = TRUE /\ mismatch = <<>>
-        /\ st = [prefix |-> S!Lits(prefix), mid |-> FALSE, sk |-> sk]
+        /\ bap = 0 /\ nops = 0 /\ script = <<>> /\ lazyok = TRUE /\ ascoded = TRUE /\ mismatch = <<>>
+        /\ st = [prefix |-> S!Lits(prefix), atStart |-> TRUE, acc |-> 0, failAt |-> sinkcfg[1], failed |-> FALSE]
 
 \* Sink.Write(b): [n, err, sk, got]
 SinkW(s, b) == LET r == PW!SinkWrite(s, Len(b)) IN [n |-> r.n, err |-> r.err, sk |-> r.sk, got |-> SubSeq(b, 1, r.n)]
 
-\* run state: [sk, got, written, bap, ret (returned?), err]
+\* run state: [sk, got, written, bap, err, serr (sink errors seen)]
+E(r) == IF r.err THEN 1 ELSE 0
 PrefixW(w) == LET r == SinkW(w.sk, prefix) IN
-              [w EXCEPT !.sk = r.sk, !.got = @ \o r.got, !.written = IF Bug = "CountsPrefix" THEN @ + r.n ELSE @]
+              [w EXCEPT !.sk = r.sk, !.got = @ \o r.got, !.written = IF Bug = "CountsPrefix" THEN @ + r.n ELSE @, !.serr = @ + E(r)]
 RECURSIVE Loop(_, _, _, _)
 Loop(w, p, start, cur) ==                                  \* 0-based indices as in the code
   IF cur >= Len(p)
   THEN IF start < cur
        THEN LET r == SinkW(w.sk, SubSeq(p, start + 1, cur)) IN
-            [w EXCEPT !.sk = r.sk, !.got = @ \o r.got, !.written = @ + r.n,
-                      !.bap = IF Bug = "BapFromLen" THEN cur - start ELSE r.n, !.err = r.err]
+            [w EXCEPT !.sk = r.sk, !.got = @ \o r.got, !.written = @ + (IF Bug = "CountsWholePiece" THEN cur - start ELSE r.n),
+                      !.bap = IF Bug = "BapFromLen" THEN cur - start ELSE r.n, !.serr = @ + E(r),
+                      !.err = r.err /\ ~(Bug = "SwallowPartialError" /\ r.n > 0)]
        ELSE w
   ELSE IF p[cur + 1] = NL
   THEN LET r == SinkW(w.sk, SubSeq(p, start + 1, cur + 1))
-           a == [w EXCEPT !.sk = r.sk, !.got = @ \o r.got]
+           a == [w EXCEPT !.sk = r.sk, !.got = @ \o r.got, !.serr = @ + E(r)]
            b == IF (cur + 1 # Len(p) \/ Bug = "EagerAtChunkEnd") /\ ~(Bug = "ErrBeforePrefix" /\ r.err) THEN PrefixW(a) ELSE a
-           c == [b EXCEPT !.written = @ + r.n]
+           c == [b EXCEPT !.written = @ + (IF Bug = "CountsWholePiece" THEN cur + 1 - start ELSE r.n)]
        IN IF r.err THEN [c EXCEPT !.err = TRUE]
           ELSE Loop([c EXCEPT !.bap = 0], p, cur + 1, cur + 1)
   ELSE Loop(w, p, start, cur + 1)
 
 WriteImpl(p) ==
-  LET w0 == [sk |-> sk, got |-> <<>>, written |-> 0, bap |-> bap, err |-> FALSE]
+  LET w0 == [sk |-> sk, got |-> <<>>, written |-> 0, bap |-> bap, err |-> FALSE, serr |-> 0]
       first == CASE Bug = "PrefixEveryWrite" -> Len(p) # 0
                  [] Bug = "EmptyWritePrefix" -> bap = 0
                  [] OTHER -> bap = 0 /\ Len(p) # 0
@@ -68,19 +73,23 @@ Write(p) ==
   /\ nops < MaxOps
   /\ LET x == WriteImpl(p)
          e == [k |-> "w", p |-> S!Lits(p), res |-> "ok", n |-> x.written, err |-> IF x.err THEN "sink" ELSE "nil",
-               got |-> S!Lits(x.got), pmod |-> FALSE]
+               got |-> S!CanonRuns(S!Lits(x.got)), serr |-> x.serr, pmod |-> FALSE]
+         pp == S!Lits(prefix)
+         r == PW!PWrite(pp, bap # 0, sk, S!Lits(p))
          m == PW!PWMon(st, e)
      IN /\ sk' = x.sk /\ bap' = x.bap
         /\ st' = m.st /\ mismatch' = FirstFailIn({"PW"}, nops + 1, m.cs)
-        /\ lazyok' = PW!AgreesWithLazy(st.prefix, st.mid, st.sk, S!Lits(p))
+        /\ lazyok' = PW!AgreesWithLazy(pp, bap # 0, sk, S!Lits(p))
+        /\ ascoded' = (S!Same(r.out, S!Lits(x.got)) /\ r.written = x.written /\ r.err = x.err /\ r.mid = (x.bap # 0) /\ r.sk = x.sk)
   /\ nops' = nops + 1 /\ script' = Append(script, p) /\ UNCHANGED <<prefix, sinkcfg>>
 
 Next == mismatch = <<>> /\ \E p \in Chunks : Write(p)
 
 NoMismatch == mismatch = <<>>
 LazyOk == lazyok
-\* the monitor's idea of the writer is the writer (refinement mapping as a state invariant)
-StateOk == mismatch = <<>> => (st.mid = (bap # 0) /\ st.sk = sk)
+AsCoded == ascoded
+\* the monitor's idea of the sink is the sink
+StateOk == mismatch = <<>> => st.acc = sk.acc
 \* leg G: every maximal behaviour becomes a case for the Go harness
 EmitCase == (Emit /\ nops = MaxOps /\ mismatch = <<>>) =>
               CSVWrite("%1$s", <<ToJson([prefix |-> prefix, failAt |-> sinkcfg[1], period |-> sinkcfg[2], sticky |-> sinkcfg[3], chunks |-> script])>>, IOEnv.CASES)
